@@ -572,6 +572,7 @@ PATCHES = [
     lambda rng, L, X: "movl $%d, %s+%d(%%rip)" % (fresh_imm(rng), rng.choice(L), rng.choice([4, 8])),
     lambda rng, L, X: "pushq %rax\n.cfi_adjust_cfa_offset 8\npopq %rax\n.cfi_adjust_cfa_offset -8",
     lambda rng, L, X: ".Lspin:\nnop\njne .Lspin",
+    lambda rng, L, X: "movl $%d, %%eax\n.Ltail:" % fresh_imm(rng),
     lambda rng, L, X: ".Lspin:\nmovl $%d, %%eax\njne .Lspin\nnop" % fresh_imm(rng),
 ]
 DATA_PATCHES = [
@@ -579,6 +580,8 @@ DATA_PATCHES = [
     lambda rng, L, X: ".quad %s" % rng.choice(L),
     lambda rng, L, X: ".string \"hi\"",
     lambda rng, L, X: ".byte 7",
+    lambda rng, L, X: ".byte %d\n.Ldtail:" % rng.randrange(256),
+    lambda rng, L, X: ".Ldhead:\n.byte %d, %d" % (rng.randrange(256), rng.randrange(256)),
 ]
 
 
